@@ -161,7 +161,12 @@ func TestVerifC02_HistoryIndependence(t *testing.T) {
 				n1 = rapid.IntRange(0, 120).Draw(rt, "stepsA2")
 			}
 			for i := 0; i < n1; i++ {
-				switch rapid.IntRange(0, 9).Draw(rt, "opA") {
+				switch rapid.IntRange(0, 11).Draw(rt, "opA") {
+				case 10, 11:
+					// RootHash() without Commit (what AccountsDB.RootHash does between transactions): hashes are cached
+					// on dirty nodes and must be invalidated by later updates
+					_ = a.root(c)
+					c.Class("A-roothash-midway")
 				case 0, 1, 2, 3, 4:
 					a.put(c, pool.Key(rt, 3), verifTGValue(rt))
 				case 5, 6:
@@ -197,8 +202,12 @@ func TestVerifC02_HistoryIndependence(t *testing.T) {
 			if len(keys) > 1 {
 				perm = rapid.Permutation(keys).Draw(rt, "permB")
 			}
+			peekB := rapid.IntRange(0, 3).Draw(rt, "peekB") == 0
 			for _, k := range perm {
 				b.put(c, []byte(k), m[k])
+				if peekB && rapid.Bool().Draw(rt, "peekBnow") {
+					_ = b.root(c) // RootHash() between pure inserts, without Commit
+				}
 			}
 
 			// ---- C: another history ending in M
@@ -246,11 +255,14 @@ func TestVerifC02_HistoryIndependence(t *testing.T) {
 				c.Class("C-detour")
 			}
 			for len(tracks) > 0 {
-				switch rapid.IntRange(0, 11).Draw(rt, "ctlC") {
+				switch rapid.IntRange(0, 14).Draw(rt, "ctlC") {
 				case 0, 1:
 					x.commit(c)
 				case 2:
 					x.recreate(rt, c)
+				case 12, 13, 14:
+					_ = x.root(c) // RootHash() midway, without Commit
+					c.Class("C-roothash-midway")
 				}
 				i := 0
 				if len(tracks) > 1 {
